@@ -110,6 +110,40 @@ def tmpl(ps):
     return jt
 
 
+_TMPL2 = {}
+
+
+def tmpl_placed(ps, where):
+    """(job template, [environment templates]) with the PATH parameters of ps defined in the job template
+    ('job'), only in an environment template ('env': the job template then has NO parameterDefinitions), or the
+    first in the job template and the rest in an environment template ('split').  None when undecodable."""
+    from openjd.model import decode_environment_template
+    key = (tuple((p[0], p[1]) if p[0] == "d" else (p[0],) for p in ps), where)
+    if key in _TMPL2:
+        return _TMPL2[key]
+    if len(_TMPL2) > 4000:
+        _TMPL2.clear()
+    pds = []
+    for i, p in enumerate(ps):
+        pd = {"name": f"P{i}", "type": "PATH"}
+        if p[0] == "d":
+            pd["default"] = p[1]
+        pds.append(pd)
+    cut = 0 if where == "env" else 1
+    t = {"specificationVersion": "jobtemplate-2023-09", "name": "J", "steps": [{"name": "S", "script": {"actions": {"onRun": {"command": "e"}}}}]}
+    if pds[:cut]:
+        t["parameterDefinitions"] = pds[:cut]
+    e = {"specificationVersion": "environment-2023-09", "environment": {"name": "E", "variables": {"A": "b"}}}
+    if pds[cut:]:
+        e["parameterDefinitions"] = pds[cut:]
+    try:
+        r = (decode_job_template(template=t), [decode_environment_template(template=e)])
+    except DecodeValidationError:
+        r = None
+    _TMPL2[key] = r
+    return r
+
+
 def fam(e):
     return type(e).__name__
 
@@ -246,6 +280,15 @@ class C11(core.PropBase):
                        "walk": bool((i + j) % 3 == 0), "ps": [["s", p]]}
             yield {"k": "job", "ps": [["d", p]]}
             yield {"k": "job", "ps": [["s", p]]}
+        # 1b. the same parameters defined only by an environment template (job template without any
+        #     parameterDefinitions) or split between job and environment template: the merged definitions are
+        #     what counts, in particular for the relative-template-directory rule
+        for i, p in enumerate(sp if thorough else rng.sample(sp, 1200)):
+            for where in ("env", "split"):
+                d = DIRS[i % len(DIRS)] if i % 3 else "rel/dir"
+                ps = [["d", p]] if where == "env" else [["s", "x"], ["d", p]]
+                yield {"k": "pre", "dir": d, "cwd": CWDS[i % len(CWDS)], "walk": bool(i % 2), "ps": ps, "where": where}
+                yield {"k": "pre", "dir": "rel/dir" if i % 2 else "", "cwd": "/cwd", "walk": False, "ps": ps, "where": where}
         # 2. extra directory spellings (trailing '/', '.', '///', '', '//') x a sample of spellings
         for d in EXTRA_DIRS:
             for p in (sp if thorough else rng.sample(sp, 1500)):
@@ -311,6 +354,22 @@ class C11(core.PropBase):
     # ---- implementation
     def impl(self, case):
         ps = case["ps"]
+        if case.get("where", "job") != "job" and case["k"] == "pre":
+            placed = tmpl_placed(ps, case["where"])
+            if placed is None:
+                return ["undecodable"]
+            jt, envs = placed
+            names = [f"P{i}" for i in range(len(ps))]
+            vals = {f"P{i}": p[1] for i, p in enumerate(ps) if p[0] == "s"}
+            try:
+                r = preprocess_job_parameters(job_template=jt, job_parameter_values=vals, job_template_dir=Path(case["dir"]),
+                                              current_working_dir=Path(case["cwd"]), allow_job_template_dir_walk_up=case["walk"],
+                                              environment_templates=envs)
+            except BaseException as e:  # noqa: BLE001
+                return ["raise", fam(e)]
+            if sorted(r) != sorted(names) or any(str(r[n].type.value) != "PATH" or not isinstance(r[n].value, str) for n in names):
+                return ["bad-result", sorted(r)]
+            return ["ok", [r[n].value for n in names], ["n/a"]]
         jt = tmpl(ps)
         if jt is None:
             return ["undecodable"]
@@ -349,7 +408,8 @@ class C11(core.PropBase):
         return [["pre", core.cps(case["dir"]), core.cps(case["cwd"]), case["walk"], self._ps(case["ps"])]]
 
     def model_obs(self, case, replies):
-        if tmpl(case["ps"]) is None:
+        placed_elsewhere = case.get("where", "job") != "job" and case["k"] == "pre"
+        if (tmpl_placed(case["ps"], case["where"]) if placed_elsewhere else tmpl(case["ps"])) is None:
             return ["undecodable"]
         r = replies[0]
         S = core.uncps
@@ -364,6 +424,8 @@ class C11(core.PropBase):
         if r[0] == "ok":
             j = r[2]
             jv = ["ok", [S(x) for x in j[1]]] if j[0] == "ok" else ["raise", "DecodeValidationError" if j[1] == "ValueError" else j[1]]
+            if placed_elsewhere:
+                jv = ["n/a"]      # a Job holds only the job template's own parameters
             return ["ok", [S(x) for x in r[1]], jv]
         return ["driver", r]
 
